@@ -83,6 +83,7 @@ type vf37Auth struct {
 	// containers named by role
 	Contexts     []string `json:"token_contexts,omitempty"`
 	RootContexts []string `json:"root_token_contexts,omitempty"`
+	Multi        bool     `json:"-"` // v2 token with several contexts
 }
 
 func (a vf37Auth) authorised() bool { return a.DirectValid || a.TokenValid }
@@ -335,7 +336,10 @@ func (e *vf37Env) genV2Contexts(need sessionv2.Verb, target, newID *cid.ID) []vf
 		}
 		ctxs = append(ctxs, vf37Ctx{Cnr: id, Verbs: vs})
 	}
-	return vf37NormCtxs(ctxs)
+	// generation order; the caller normalises. (Container IDs are not reproducible between
+	// runs – the SDK puts a random nonce into every container –, so nothing random may be
+	// drawn in the ID-sorted order.)
+	return ctxs
 }
 
 func (e *vf37Env) genV2(data []byte, kind string, target *cid.ID, newID *cid.ID) vf37Auth {
@@ -345,12 +349,13 @@ func (e *vf37Env) genV2(data []byte, kind string, target *cid.ID, newID *cid.ID)
 	need := vf37VerbsV2(kind)
 	subj := vf37Key(rng)
 	o := vf37TokV2Opts{Iat: e.now.Add(-time.Minute), Nbf: e.now.Add(-time.Minute), Exp: e.now.Add(time.Hour), Issuer: e.owner, Subject: vf37User(subj)}
-	var ctxs []vf37Ctx
+	var raw []vf37Ctx // in generation order
 	if rng.IntN(100) < 45 {
-		ctxs = e.genV2Contexts(need, target, newID)
+		raw = e.genV2Contexts(need, target, newID)
+		a.Multi = true
 		// low-cardinality tag: where the needed verb lives
 		var in []string
-		for _, c := range ctxs {
+		for _, c := range raw {
 			if role := e.cnrRole(c.Cnr, target, newID); slices.Contains(c.Verbs, need) && !slices.Contains(in, role) {
 				in = append(in, role)
 			}
@@ -400,7 +405,12 @@ func (e *vf37Env) genV2(data []byte, kind string, target *cid.ID, newID *cid.ID)
 				}
 			}
 		}
-		ctxs = vf37NormCtxs([]vf37Ctx{single})
+		raw = []vf37Ctx{single}
+	}
+	ctxs := vf37NormCtxs(raw)
+	// the normalised contexts, but in generation order (see genV2Contexts)
+	for i := range raw {
+		raw[i] = ctxs[slices.IndexFunc(ctxs, func(c vf37Ctx) bool { return c.Cnr == raw[i].Cnr })]
 	}
 	o.Ctxs = ctxs
 	a.Contexts = e.vf37CtxString(ctxs, target, newID)
@@ -442,8 +452,8 @@ func (e *vf37Env) genV2(data []byte, kind string, target *cid.ID, newID *cid.ID)
 		switch rng.IntN(4) {
 		case 0:
 			// the root token delegates more than the final one passes on
-			wide := make([]vf37Ctx, 0, len(ctxs))
-			for _, c := range ctxs {
+			wide := make([]vf37Ctx, 0, len(raw))
+			for _, c := range raw {
 				vs := slices.Clone(c.Verbs)
 				for _, v := range vf37VerbPoolV2 {
 					if !slices.Contains(vs, v) && rng.IntN(3) == 0 {
@@ -458,8 +468,8 @@ func (e *vf37Env) genV2(data []byte, kind string, target *cid.ID, newID *cid.ID)
 			// the root token does not delegate the needed verb for the target; only the
 			// re-issued token claims it
 			changed := false
-			narrow := make([]vf37Ctx, 0, len(ctxs))
-			for _, c := range ctxs {
+			narrow := make([]vf37Ctx, 0, len(raw))
+			for _, c := range raw {
 				vs := slices.Clone(c.Verbs)
 				if (target == nil || c.Cnr.IsZero() || c.Cnr == *target) && slices.Contains(vs, need) {
 					vs = slices.DeleteFunc(vs, func(v sessionv2.Verb) bool { return v == need })
@@ -513,9 +523,10 @@ func TestVerif_C37(t *testing.T) {
 	defer r.Finish()
 	nWorlds := r.Pick(80, 600)
 	perWorld := r.Pick(100, 250)
-	r.SetRule(fmt.Sprintf("%d seeded nodes (alphabet member; EC allowed on every second one) x %d container requests each: kind in %v; witness in {owner RFC6979 signature, stranger signature, owner key with foreign signature, owner signature of other data, N3 witness accepted/refused by the chain, session v1 token, session v2 token (incl. delegation)} with mutated verbs, container binding, lifetimes, issuers, token signatures; creation content with valid/invalid REP, EC, REP+EC policies and permitted/forbidden system attributes; eACL tables targeting others/user/system roles on extendable/final containers; distinct = (kind, witness mode, oracle verdict components, approved?) signatures", nWorlds, perWorld, vf37Kinds))
+	r.SetRule(fmt.Sprintf("%d seeded nodes (alphabet member; EC allowed on every second one) x %d container requests each: kind in %v; witness in {owner RFC6979 signature, stranger signature, owner key with foreign signature, owner signature of other data, N3 witness accepted/refused by the chain, session v1 token, session v2 token (one context, or several contexts over wildcard / target / other containers of the owner / unrelated containers with independent verb sets; delegation with equal, wider or narrower root token)} with mutated verbs, container binding, lifetimes, issuers, token signatures; creation content with valid/invalid REP, EC, REP+EC policies and permitted/forbidden system attributes; eACL tables targeting others/user/system roles on extendable/final containers; distinct = (kind, witness mode, oracle verdict components, approved?) signatures", nWorlds, perWorld, vf37Kinds))
 	r.Assume("a contract-style (N3) witness counts as the owner's signature iff the chain's script run returns true")
 	r.Assume("permitted system attributes = __NEOFS__NAME, __NEOFS__ZONE, __NEOFS__LOCK_UNTIL (chain metadata is disabled in the fixture, so __NEOFS__METAINFO_CONSISTENCY is not permitted)")
+	r.Assume("a v2 token is 'for that verb and container' iff one of its contexts that applies to the container (wildcard or exactly this container) lists the verb; in a delegation chain this must also hold for the root token, the one the owner signed")
 	r.Assume("for creation with a v2 token the oracle only demands that some context carries CONTAINER_PUT (the statement names no container to match)")
 
 	for wi := 0; wi < nWorlds; wi++ {
@@ -542,6 +553,9 @@ func TestVerif_C37(t *testing.T) {
 	}
 	if r.Counter("approved") == 0 || r.Counter("refused") == 0 {
 		r.Inconclusive("approvals and refusals were not both observed")
+	}
+	if r.Counter("v2_multi_context_authorising_approved") == 0 || r.Counter("v2_multi_context_verb-and-container-in-different-contexts_refused") == 0 {
+		r.Inconclusive("v2 tokens with several contexts: an approval with verb and container in one context and a refusal with verb and container in different contexts were not both observed")
 	}
 	for _, k := range vf37Kinds {
 		if r.Counter("approved_kind_"+k) == 0 {
@@ -742,6 +756,25 @@ func vf37OneRequest(r *verifkit.Run, e *vf37Env, w *vf37World, finalID cid.ID, a
 		approved = true
 	}
 	mode := auth.Mode
+	// what was observed about v2 tokens with several contexts
+	for _, au := range []*vf37Auth{&auth, eaclAuth} {
+		if au == nil || !au.Multi {
+			continue
+		}
+		verdict := "authorising"
+		if slices.Contains(au.Why, "verb-delegated-for-other-container-only") {
+			verdict = "verb-and-container-in-different-contexts"
+		} else if slices.Contains(au.Why, "verb") {
+			verdict = "verb-nowhere"
+		} else if slices.Contains(au.Why, "container") {
+			verdict = "no-context-for-container"
+		}
+		out := "refused"
+		if approved {
+			out = "approved"
+		}
+		r.Count("v2_multi_context_"+verdict+"_"+out, 1)
+	}
 	if approved {
 		r.Count("approved", 1)
 		r.Count("approved_kind_"+kind, 1)
